@@ -19,7 +19,8 @@ pub fn all() -> Vec<Box<dyn Engine>> {
         Box::new(maps::HmEngine),
         Box::new(maps::HtEngine),
         Box::new(values::ValEngine),
-        Box::new(values::TblEngine),
+        Box::new(values::TblEngine { limited: false }),
+        Box::new(values::TblEngine { limited: true }),
         Box::new(modules::ModEngine),
         Box::new(compile::CmpEngine),
         Box::new(compile::WfEngine),
